@@ -23,7 +23,7 @@ func streamEnc(c *ev.Case, t sut, p, s []byte, sStr bool, rp readerPlan, wp writ
 		return nil
 	}
 	if err != nil || ferr != nil {
-		c.Failf("stream-enc-error", "EncryptStreamTo(writer{%s}, reader{%s}) over a healthy %d-byte source returned %s", wp, rp, len(p), errStr(err))
+		c.Failf("stream-enc-error", "EncryptStreamTo(writer{%s}, reader{%s}) over a healthy %d-byte source returned %s%s", wp, rp, len(p), errStr(err), sinkErr(ferr))
 		return nil
 	}
 	noteReader(c, "enc", sp, sr, rp)
@@ -112,7 +112,7 @@ func streamDec(c *ev.Case, t sut, ct, p, s []byte, sStr bool, rp readerPlan, wp 
 			sig = "stream-dec-error/header-chunked"
 			extra = fmt.Sprintf("; the reader's first Read returned (%d, %v)", sp.firstN, sp.firstErr) // failure path only
 		}
-		c.Failf(sig, "DecryptStreamTo(writer{%s}, reader{%s}) on the %d-byte output of EncryptStreamTo(%d-byte plaintext %s, secret %s) returned %s%s", wp, rp, len(ct), len(p), q(p), q(s), errStr(err), extra)
+		c.Failf(sig, "DecryptStreamTo(writer{%s}, reader{%s}) on the %d-byte output of EncryptStreamTo(%d-byte plaintext %s, secret %s) returned %s%s%s", wp, rp, len(ct), len(p), q(p), q(s), errStr(err), extra, sinkErr(ferr))
 		return false
 	}
 	if !bytes.Equal(out, p) {
@@ -380,4 +380,11 @@ func streamLargeCase(c *ev.Case) {
 	if c.WantSample() {
 		c.Sample(fmt.Sprintf("stream/large: %d bytes via reader{%s} writer{%s}, decrypted twice under other scripts", n, erp, ewp))
 	}
+}
+
+func sinkErr(err error) string {
+	if err == nil {
+		return ""
+	}
+	return "; reading the destination back: " + err.Error()
 }
